@@ -33,7 +33,8 @@ OpsOf(k) ==
   (IF k \in Shapes \cup {"Subpath"} THEN {"topath"} ELSE {}) \cup
   (IF k = "Matrix" THEN {"inv", "matmul"} ELSE {}) \cup
   (IF k \in {"Path", "PathT", "Point", "Length"} \cup Segments THEN {"add"} ELSE {}) \cup
-  (IF k \in {"Path", "PathT"} THEN {"radd"} ELSE {}) \cup                                      \* "path data" + x
+  (IF k \in {"Path", "PathT"} THEN {"radd"} ELSE {}) \cup
+  (IF k \in Segments THEN {"pathadd", "addpath"} ELSE {}) \cup                                   \* Path + x, x + Path (x a segment)                                      \* "path data" + x
   (IF k \in Segments \cup Shapes \cup Groups \cup {"Point", "Text", "Image", "Subpath"} THEN {"mulid"} ELSE {})   \* x * identity
 
 \* kind of the derived object
